@@ -291,6 +291,29 @@ impl<T: Elem + SatisfyTraits<Tr>, M: MX, Tr: TrX + ?Sized> World<T, M, Tr> {
             Err(Caught::Panic(_)) => out.outcome.push_str("panic-overflow"),
             Ok(()) => out.fail(Class::Vec, "missing-panic-overflow", format!("range {o:?} whose bound computation overflows did not panic")),
         }
+        // the same on a vector whose length really is usize::MAX (only reachable for zero-sized elements, through set_len): the
+        // bound computation still overflows, so the call must still panic before anything changes
+        if T::SIZE == 0 && !T::HAS_DROP && self.a.capacity() == usize::MAX && out.fails.is_empty() && !out.faulted {
+            let len0 = self.a.len();
+            unsafe { self.a.set_len(usize::MAX); }
+            let va = &mut self.a;
+            let r = guarded(|| {
+                let bd = overflow_bounds(o);
+                match (api, splice) {
+                    (Api::Erased, false) => { let d = va.drain(bd); std::mem::forget(d); }
+                    (Api::Erased, true) => { let (it, _) = ReplT::<T>::new(0, 0); let d = va.splice(bd, it.map(AnyValueWrapper::new)); std::mem::forget(d); }
+                    (Api::Typed, false) => { let mut t = va.downcast_mut::<T>().unwrap(); let d = t.drain(bd); std::mem::forget(d); }
+                    (Api::Typed, true) => { let mut t = va.downcast_mut::<T>().unwrap(); let (it, _) = ReplT::<T>::new(0, 0); let d = t.splice(bd, it); std::mem::forget(d); }
+                }
+            });
+            let len1 = self.a.len();
+            unsafe { self.a.set_len(len0); }
+            match r {
+                Err(Caught::Injected) => out.faulted = true,
+                Err(Caught::Panic(_)) => { if len1 != usize::MAX { out.fail(Class::Vec, "panic-changed-len", format!("range {o:?} on a vector of usize::MAX zero-sized elements panicked but left len {len1}")); } out.outcome.push_str("+maxlen"); }
+                Ok(()) => out.fail(Class::Vec, "missing-panic-overflow", format!("range {o:?} on a vector of usize::MAX zero-sized elements did not panic (bound computation overflows)")),
+            }
+        }
     }
 
     pub fn do_splice(&mut self, api: Api, a: usize, b: usize, form: Form, pat: Pat, sink: Sink, rn: usize, rsrc: RSrc, lie: i8, out: &mut Out) {
@@ -370,7 +393,8 @@ impl<T: Elem + SatisfyTraits<Tr>, M: MX, Tr: TrX + ?Sized> World<T, M, Tr> {
     /// Iterator protocol over the whole vector (C14): exact size, double ended, fused, clones independent.
     pub fn do_iter_proto(&mut self, api: Api, kind: IterKind, pat: Pat, clone_at: u8, out: &mut Out) {
         let va = &mut self.a;
-        let clone_at = clone_at as usize;
+        let from = clone_at >= 100; // the copy is made with `Clone::clone_from` into an iterator created over ANOTHER vector
+        let clone_at = (clone_at % 100) as usize;
         // (original observations, clone observations)
         type O = (Vec<StepObs>, Vec<StepObs>);
         fn drive<I: DoubleEndedIterator + ExactSizeIterator, F: FnMut(I::Item) -> u16>(it: &mut I, pat: Pat, from: usize, mut f: F) -> Vec<StepObs> {
@@ -386,20 +410,29 @@ impl<T: Elem + SatisfyTraits<Tr>, M: MX, Tr: TrX + ?Sized> World<T, M, Tr> {
         }
         let r: Result<O, Caught> = guarded(|| match (api, kind) {
             (Api::Erased, IterKind::Iter) | (Api::Erased, IterKind::IntoIterRef) => {
-                let mut it = if kind == IterKind::Iter { va.iter() } else { (&*va).into_iter() };
-                let mut pre = Pat { n: clone_at.min(pat.n as usize) as u8, bits: pat.bits };
-                if clone_at > pat.n as usize { pre = pat; }
-                let mut o1 = drive(&mut it, pre, 0, |e| e.downcast_ref::<T>().unwrap().id());
-                if clone_at > pat.n as usize { return (o1, Vec::new()); }
-                o1.pop();
-                let mut cl = it.clone();
-                o1.extend(drive(&mut it, pat, clone_at, |e| e.downcast_ref::<T>().unwrap().id()));
-                let o2 = drive(&mut cl, pat, clone_at, |e| e.downcast_ref::<T>().unwrap().id());
-                (o1, o2)
+                // (the two ways to obtain the iterator are expanded separately: nothing here assumes that they give the same type)
+                macro_rules! shared { ($mk:expr, $mk_other:expr) => {{
+                    let mut it = $mk;
+                    let mut pre = Pat { n: clone_at.min(pat.n as usize) as u8, bits: pat.bits };
+                    if clone_at > pat.n as usize { pre = pat; }
+                    let mut o1 = drive(&mut it, pre, 0, |e| e.downcast_ref::<T>().unwrap().id());
+                    if clone_at > pat.n as usize { return (o1, Vec::new()); }
+                    o1.pop();
+                    let mut other = AnyVec::<Tr, M>::new_in::<T>(M::make());
+                    if from && (M::RESIZABLE || other.capacity() > 0) { other.downcast_mut::<T>().unwrap().push(T::fresh()); }
+                    let mut cl = if from { let mut c = $mk_other(&other); c.clone_from(&it); c } else { it.clone() };
+                    o1.extend(drive(&mut it, pat, clone_at, |e| e.downcast_ref::<T>().unwrap().id()));
+                    let o2 = drive(&mut cl, pat, clone_at, |e| e.downcast_ref::<T>().unwrap().id());
+                    drop(cl);
+                    drop(other);
+                    (o1, o2)
+                }} }
+                if kind == IterKind::Iter { shared!(va.iter(), |o: &AnyVec<Tr, M>| unsafe { &*(o as *const AnyVec<Tr, M>) }.iter()) }
+                else { shared!((&*va).into_iter(), |o: &AnyVec<Tr, M>| unsafe { &*(o as *const AnyVec<Tr, M>) }.into_iter()) }
             }
             (Api::Erased, _) => {
-                let mut it = if kind == IterKind::IterMut { va.iter_mut() } else { (&mut *va).into_iter() };
-                (drive(&mut it, pat, 0, |mut e| e.downcast_mut::<T>().unwrap().id()), Vec::new())
+                if kind == IterKind::IterMut { let mut it = va.iter_mut(); (drive(&mut it, pat, 0, |mut e| e.downcast_mut::<T>().unwrap().id()), Vec::new()) }
+                else { let mut it = (&mut *va).into_iter(); (drive(&mut it, pat, 0, |mut e| e.downcast_mut::<T>().unwrap().id()), Vec::new()) }
             }
             (Api::Typed, IterKind::Iter) | (Api::Typed, IterKind::IntoIterRef) => {
                 let t = va.downcast_ref::<T>().unwrap();
